@@ -9,7 +9,8 @@ from .spec import EXPIRY, PERIOD
 APPS = ["appA", "appB", "appC"]
 SIDES = ["s1", "s2", "s3", "s4"]
 NAMES = ["1", "2", "7", "42", "007", "np-x", "１２"]
-MOODS = ["happy", "lonely", "scary", "errory", "weirdé", None, "ABSENT"]
+MOODS = ["happy", "lonely", "scary", "errory", "weirdé", None, "ABSENT", "happy", "lonely", "scary", "errory",
+         "crowded", "pruney", "quiet", "Happy", ""]
 UNICODE = ["", "\u0000x", "nul\u0000", "\U0001F600", "é", "‮RTL", "퟿", "x" * 300,
            "\"quote\\", "a b\tc\n", "￿", "y" * 70000,
            "e\u0301", "\u212b", "ﬁ", " lead", "trail ", "MiXeD", "ß", "İ", "0", "00", "-1", "1e3", "null", "true", "²", "①", "٣", "Ⅷ"]
@@ -27,7 +28,7 @@ BASE = {
         "open": 7, "add": 8, "close": 5, "drop": 2.5, "reconnect": 3, "ping": 0.7,
         "adv_small": 4, "adv_min": 2, "adv_sweep": 1.5, "adv_phase": 0.7, "adv_long": 0.4,
         "restart": 0.8, "kill": 0.3, "bad": 0.8, "stall": 0.2, "jump": 0.0, "dbfault": 0.0,
-        "persona": 1.5, "bulk": 0.0, "third": 0.5, "resend": 1.0, "split": 0.2, "idle_sub": 0.2, "late_claim": 0.1, "reuse": 0.15,
+        "persona": 1.5, "bulk": 0.0, "third": 0.5, "resend": 1.0, "split": 0.2, "idle_sub": 0.2, "late_claim": 0.1, "reuse": 0.15, "exhaust": 0.0, "dormant": 0.05,
     },
 }
 
@@ -52,14 +53,15 @@ PROFILES = {
                                "resend": 3, "close": 5, "adv_long": 0.8, "add": 3}),
     "C04": profile(allow_list_p=0.5, napps=(1, 2), case_app_p=0.3, choice_modes=["faithful", "min", "max", "keyed"],
                    randrange_modes=["faithful", "collide"], steps=(6, 30), names=6,
-                   w={"allocate": 16, "bulk": 0.9, "claim": 5, "release": 6, "connect": 10, "list": 3,
+                   w={"allocate": 16, "bulk": 0.9, "exhaust": 1.2, "claim": 5, "release": 6, "connect": 10, "list": 3,
                       "adv_long": 0.5, "add": 2, "open": 2, "close": 3, "persona": 0.5}),
     "C05": profile(nsides=(3, 4), names=2, literal_ids=1, napps=(1, 2), jumps=[-3600.0, -30.0, -1.0, 1.0, 30.0],
                    usage_p=0.3,
                    w={"third": 6, "jump": 0.5, "reuse": 1.5, "claim": 8, "open": 9, "close": 6, "release": 4, "reconnect": 5, "resend": 4,
                       "drop": 4, "restart": 1.0, "add": 6}),
     "C06": profile(napps=(2, 3), names=2, literal_ids=2, share_ids_p=0.12, numeric_app_p=0.15, case_app_p=0.2,
-                   w={"restart": 1.0, "adv_sweep": 1.5, "adv_long": 0.6, "connect_unbound": 1.5}),
+                   w={"restart": 1.5, "adv_sweep": 1.5, "adv_long": 1.2, "connect_unbound": 1.5, "split": 1.5,
+                      "late_claim": 1.0, "idle_sub": 0.5, "dormant": 1.2}),
     "C07": profile(names=4, nsides=(2, 3),
                    w={"claim": 12, "allocate": 5, "release": 10, "list": 5, "close": 6, "open": 5, "add": 3,
                       "reconnect": 4, "resend": 2}),
@@ -67,7 +69,7 @@ PROFILES = {
                    w={"close": 12, "claim": 8, "open": 9, "release": 5, "add": 6, "reconnect": 6, "resend": 5,
                       "drop": 4, "persona": 3}),
     "C09": profile(usage_p=0.6, w={"persona": 3, "adv_sweep": 2, "bad": 1.5, "idle_sub": 1.0}),
-    "C12": profile(autoping_p=0.5, steps=(12, 50), names=3,
+    "C12": profile(autoping_p=0.5, steps=(12, 50), names=3, odd_app_p=0.15,
                    w={"adv_phase": 5, "adv_sweep": 5, "adv_min": 4, "adv_long": 1.5, "stall": 0.8, "add": 8,
                       "open": 8, "restart": 1.0, "kill": 0.4, "drop": 3, "jump": 0.3, "close": 2, "release": 2, "split": 1.0, "idle_sub": 1.0, "late_claim": 1.0}),
     "C13": profile(quiesce_p=1.0, steps=(8, 40), jumps=[0.5, 30.0, 700.0, 3600.0], share_ids_p=0.08,
@@ -76,10 +78,10 @@ PROFILES = {
     "C15": profile(usage_p=1.0, nsides=(2, 4), steps=(10, 45),
                    w={"close": 9, "release": 7, "persona": 3, "adv_long": 1.2, "third": 1.5, "adv_sweep": 2,
                       "kill": 0.0}),
-    "C16": profile(usage_p=1.0, blur=[1, 7, 60, 61, 100, 900, 3600, 86400],
+    "C16": profile(usage_p=1.0, blur=[1, 7, 60, 61, 100, 900, 3600, 86400], log_fd_p=0.2,
                    w={"close": 8, "release": 7, "persona": 3, "adv_long": 1.5, "adv_sweep": 2, "adv_small": 6}),
     "C17": profile(unicode_p=0.5, welcome_p=0.7, share_ids_p=0.05, big_p=0.01,
-                   w={"bad": 14, "connect_unbound": 2, "ping": 2, "third": 1, "list": 5, "reuse": 1.5}),
+                   w={"bad": 14, "connect_unbound": 2, "ping": 2, "third": 2.5, "list": 5, "reuse": 1.5}),
     "C10": profile(steps=(6, 22), usage_p=0.6, nsides=(2, 3), names=3, autoping_p=0.1, hold_p=0.0,
                    w={"claim": 9, "release": 7, "close": 8, "open": 7, "add": 5, "adv_sweep": 1.5, "adv_long": 1.0,
                       "restart": 0.3, "kill": 0.3, "persona": 2.5, "third": 0.8, "bad": 0.2, "stall": 0, "idle_sub": 1.5}),
@@ -116,6 +118,8 @@ class Gen(object):
         self.apps = APPS[:r.randint(*p["napps"])]
         if r.random() < p.get("numeric_app_p", 0.0):
             self.apps[-1] = "1"          # an application whose id looks like a number
+        if r.random() < p.get("odd_app_p", 0.06):
+            self.apps[0] = r.choice(["cafe\u0301.example/xfer", "\u212bpp", "app A", "ﬁle.app"])   # not NFC / not ASCII
         if len(self.apps) >= 2 and r.random() < p.get("case_app_p", 0.06):
             self.apps[1] = self.apps[0].swapcase()   # two applications whose ids differ in letter case only
         self.sides = SIDES[:r.randint(*p["nsides"])]
@@ -134,6 +138,8 @@ class Gen(object):
                 self.cfg["advertise_version"] = "0.12.0"
             if r.random() < 0.3:
                 self.cfg["signal_error"] = "go away"
+        if r.random() < p.get("log_fd_p", 0.05):
+            self.cfg["log_fd"] = True
         self.rng_modes = {"choice": r.choice(p["choice_modes"]), "randrange": r.choice(p["randrange_modes"])}
         self.share_ids = r.random() < p["share_ids_p"]
         self.unicode = r.random() < p["unicode_p"]
@@ -268,6 +274,10 @@ class Gen(object):
         if c.claimed is not None and r < 0.65:
             return {"ref": "claimed", "c": c.id}
         pool = self.mboxes[c.app]
+        if pool and r < 0.72:
+            # an id chosen by the client that contains (or is contained in) another id
+            base = self.rng.choice(pool)
+            return {"cat": self.rng.choice([["x-", base, "-x"], [base, "x"], ["x", base], [base, base]])}
         return self.rng.choice(pool) if pool else "mbx-x"
 
     def a_open(self, c, mb=None):
@@ -321,6 +331,21 @@ class Gen(object):
         """a client that lost its connection comes back: same app and side,
         re-binds, usually re-opens its mailbox, may re-send its last command"""
         c, out = self.a_connect(app=old.app, side=old.side)
+        if not old.closed and (old.opened is not None or old.claimed is not None) and self.rng.random() < 0.2:
+            # gives up instead: only a close naming its mailbox (no claim, no open on this connection) ...
+            c.closed = True
+            c.opened = old.opened if old.opened is not None else {"ref": "claimed", "c": old.id}
+            m = {"type": "close", "mailbox": c.opened}
+            mood = self.rng.choice(MOODS)
+            if mood != "ABSENT":
+                m["mood"] = mood
+            out.append(self._send(c, m))
+            if old.claimed is not None and self.rng.random() < 0.6:
+                # ... and somebody new claims the name
+                others = [x for x in self.sides if x != old.side] or self.sides
+                d, o = self.a_connect(app=old.app, side=self.rng.choice(others))
+                out += o + self.a_claim(d, old.claimed)
+            return out
         if old.opened is not None and not old.closed and self.rng.random() < 0.8:
             out += self.a_open(c, old.opened)
         if resend and old.last_cmd is not None and old.last_cmd.get("type") in ("claim", "release", "open", "close"):
@@ -535,6 +560,34 @@ class Gen(object):
         out += self.a_add(y)
         return out
 
+    def a_dormant(self):
+        """two apps after a restart, one with records long abandoned and one in use; a client of the
+        dormant app binds, a sweep passes, and only then do it and a partner start to talk"""
+        r = self.rng
+        if len(self.apps) < 2:
+            return self.a_late_claim()
+        dorm, busy = r.sample(self.apps, 2)
+        out = [{"op": "bulk", "app": dorm, "side": "gone", "names": [r.choice(["3", "8", "21"])]}]
+        # (abandoned long enough to expire at the sweep after next, or already at the next one)
+        out.append({"op": "advance", "dt": round(r.uniform(365, 655) if r.random() < 0.7 else r.uniform(500, 1000), 3)})
+        b, o = self.a_connect(app=busy)
+        out += o + self.a_claim(b, self.name_for(b))
+        if r.random() < 0.7:
+            for c in self.conns.values():
+                c.alive = False
+            kill = self.p["w"].get("kill", 0) > 0 and r.random() < 0.3
+            out.append({"op": "restart", "how": "kill" if kill else "clean"})
+        s1, s2 = r.sample(self.sides, 2) if len(self.sides) >= 2 else (self.sides[0], self.sides[0])
+        x, o = self.a_connect(app=dorm, side=s1)
+        out += o
+        out.append({"op": "advance", "to": "sweep", "eps": r.choice([0.5, 20.0])})
+        name = self.name_for(x)
+        out += self.a_claim(x, name) + self.a_open(x, {"ref": "claimed", "c": x.id})
+        y, o = self.a_connect(app=dorm, side=s2)
+        out += o + self.a_claim(y, name) + self.a_open(y, {"ref": "claimed", "c": y.id})
+        out += self.a_add(y) + self.a_add(x)
+        return out
+
     def a_reuse(self):
         """a mailbox id lives twice: one side on two connections, the last close comes over one of
         them, the other lingers; then other sides use the same id again"""
@@ -570,6 +623,24 @@ class Gen(object):
             out += self.a_close(a1)
         return out
 
+    def a_exhaust(self):
+        """a whole tier is taken, somebody allocates into the next one, the tier is freed
+        by expiry (or releases), and somebody allocates again"""
+        r = self.rng
+        app = r.choice(self.apps)
+        names = ["%d" % i for i in range(1, 10)]
+        if r.random() < 0.3:
+            names += ["%d" % i for i in range(10, 100)]
+        out = [{"op": "bulk", "app": app, "side": "filler", "names": names}]
+        a, o = self.a_connect(app=app)
+        out += o + self.a_allocate(a)
+        out.append({"op": "advance", "dt": round(r.uniform(700, 1500), 3)})
+        b, o = self.a_connect(app=app)
+        out += o + self.a_allocate(b)
+        c, o = self.a_connect(app=app)
+        out += o + self.a_allocate(c)
+        return out
+
     def a_third(self):
         """a further side arrives at something two sides share"""
         cands = [c for c in self.bound() if c.opened is not None or c.claimed is not None]
@@ -584,6 +655,23 @@ class Gen(object):
             out += self.a_claim(c, t.claimed)
         else:
             out += self.a_open(c, t.opened if t.opened is not None else {"ref": "claimed", "c": t.id})
+        if self.rng.random() < 0.35:
+            # ... and, whatever it was told, tries something else on the same connection
+            k = self.rng.choice(["claim", "claim", "release", "open", "close", "allocate"])
+            if k == "claim":
+                m = {"type": "claim", "nameplate": self.name_for(c)}
+                m.update(self.mid_of())
+                out.append(self._send(c, m))
+            elif k == "release":
+                out += self.a_release(c)
+            elif k == "open":
+                m = {"type": "open", "mailbox": self.mailbox_for(c)}
+                m.update(self.mid_of())
+                out.append(self._send(c, m))
+            elif k == "close":
+                out += self.a_close(c)
+            else:
+                out += self.a_allocate(c)
         return out
 
     # -------------------------------------------------------------- driver
@@ -655,6 +743,8 @@ class Gen(object):
             acts.append(("idle_sub", w.get("idle_sub", 0)))
             acts.append(("late_claim", w.get("late_claim", 0)))
             acts.append(("reuse", w.get("reuse", 0)))
+            acts.append(("exhaust", w.get("exhaust", 0)))
+            acts.append(("dormant", w.get("dormant", 0)))
             dead = [c for c in self.conns.values() if not c.alive and c.app is not None]
             if dead:
                 acts.append(("reconnect", w["reconnect"]))
@@ -694,6 +784,10 @@ class Gen(object):
             return self.a_late_claim()
         if a == "reuse":
             return self.a_reuse()
+        if a == "exhaust":
+            return self.a_exhaust()
+        if a == "dormant":
+            return self.a_dormant()
         if a in ("reconnect", "resend"):
             dead = [c for c in self.conns.values() if not c.alive and c.app is not None]
             return self.a_reconnect(r.choice(dead), resend=(a == "resend"))
@@ -712,6 +806,12 @@ class Gen(object):
             return [self._send(r.choice(bound), m)]
         if a == "open":
             cs = [c for c in bound if c.opened is None]
+            again = [c for c in bound if c.opened is not None and c.closed]
+            if again and r.random() < 0.12:
+                # the same connection opens again after its own close (the server allows it)
+                c = r.choice(again)
+                c.closed = False
+                return self.a_open(c, c.opened if r.random() < 0.7 else None)
             return self.a_open(r.choice(cs)) if cs else []
         if a == "add":
             cs = [c for c in bound if c.opened is not None and not c.closed]
